@@ -188,3 +188,12 @@ def replay(ctx, path):
     _, v = check_history(ctx, None, nptdms, data, ops, lens, dict(ops=0))
     print("replay: %s" % ([x.what for x in v] or "property holds on this history"))
     return 1 if v else 0
+
+
+def corpus(ctx, entry):
+    rp = entry["replay"]
+    data = bytes.fromhex(rp["file"])
+    nptdms = ctx.nptdms()
+    f, _ = cl.open_real(data, nptdms)
+    lens = {c.path.encode("utf-8"): len(c) for c in cl.channels_of(f)}
+    return check_history(ctx, ctx.get_model() if ctx.build_ok else None, nptdms, data, [parse_op(t) for t in rp["ops"]], lens, dict(ops=0))
